@@ -11,7 +11,8 @@ import VelaVerif.Model.CacheWitnesses
 Level "other" (partial). What is proved is about the abstract model of the process state in
 `Model/Caches.lean`: when can a compilation not see what ran before it (`history_independent…`), where the
 unchanged code does not meet that hypothesis (`…_witness`, each one reproduced on the real compiler by
-`harness/check_C14.py` unless its docstring says otherwise), when sorting before emitting removes the
+`harness/check_C14.py` unless its docstring says otherwise; the five found in the first round are repaired in /repo and have
+become instances of the theorem), when sorting before emitting removes the
 dependence on set iteration order (`permutation_invariant…`), and table facts re-checked against the source on
 every run (which process-wide stores exist, what the entry points reset, where `hash()` and `random` are used).
 That the real compiler *is* such a program — and the determinism of CPython, NumPy and the C extension — is
@@ -48,38 +49,30 @@ example : agree [⟨"ok", 2096, "a36c", []⟩, ⟨"exception:AssertionError@tens
 
 /-! ## History independence of the process-state model -/
 
-/-- **history_independent.** Let every request's compilation satisfy `cache_key_sufficient` (`Suff F true`): a
-memo look-up whose key an earlier compilation could have built stores a value that is a function `F` of the key
-alone; addresses are only given to, and read from, identities created by the compilation itself; the debug
-database is not dumped. Then after ANY history — any requests, through any entry points, failed ones included —
-the output (and whether the compilation fails) is the one obtained in a fresh process. -/
+/-- **history_independent.** Let every request's compilation satisfy `cache_key_sufficient` (`Suff F false`): a look-up in
+a memo table that *persists* (`default_arch_cache`, the conflict memo) under a key an earlier compilation could have built
+stores a value that is a function `F` of the key alone. Nothing is asked of the compressed-weight cache and of the tensor
+address map (both emptied at the start of `compiler_driver`). Then after ANY history — any requests, through any entry
+points, failed ones included — the output (and whether the compilation fails) is the one obtained in a fresh process,
+provided the debug database is dumped only through `main`, the entry point that cleans it first (and the only one that
+ever writes it). -/
 theorem history_independent {ρ ω : Type} (F : Store → PKey → Val) (prog : ρ → Prog ω)
-    (hs : ∀ r, Suff F true (prog r)) (h : List (Entry × ρ)) (e : Entry) (rq : ρ) :
+    (hs : ∀ r, Suff F false (prog r)) (h : List (Entry × ρ)) (e : Entry) (rq : ρ)
+    (hq : e ≠ .main → Suff F true (prog rq)) :
     (compile prog e (after prog h init) rq).1 = (compile prog e init rq).1 := by
-  rw [compile_fst, compile_fst]
+  rw [compile_fst, compile_fst, prepare_init]
   have hinv := after_inv (F := F) prog hs h init inv_init
-  exact run_sim (hs rq) _ _ (sim_init_of_inv hinv)
+  by_cases he : e = .main
+  · exact run_sim (hs rq) _ _ (sim_prepare_of_inv hinv e (fun _ => he))
+  · exact run_sim (hq he) _ _ (sim_prepare_of_inv hinv e (fun hf => by cases hf))
 
-/-- **history_independent_after_convert_bytes.** Without the two restrictions on addresses and on the debug
-database (`Suff F false`: memoised identities may receive addresses, the database may be dumped) the same holds
-right after a *successful* `convert_bytes`, the only entry point that clears both stores. -/
-theorem history_independent_after_convert_bytes {ρ ω : Type} (F : Store → PKey → Val) (prog : ρ → Prog ω)
-    (hs : ∀ r, Suff F false (prog r)) (h : List (Entry × ρ)) (r0 : ρ)
-    (hok : (compile prog .convertBytes (after prog h init) r0).1 ≠ none) (e : Entry) (rq : ρ) :
-    (compile prog e (compile prog .convertBytes (after prog h init) r0).2 rq).1 = (compile prog e init rq).1 := by
-  rw [compile_fst, compile_fst]
-  have hinv := after_inv (F := F) prog hs h init inv_init
-  have hinv' := compile_inv prog hs .convertBytes _ r0 hinv
-  refine run_sim (hs rq) _ _ (sim_init_of_inv_clean hinv' ?_ ?_)
-  all_goals
-    unfold compile at hok ⊢
-    rcases hr : run (prog r0) (after prog h init) with ⟨o, st'⟩
-    rw [hr] at hok
-    cases o with
-    | none => exact absurd rfl hok
-    | some o => rfl
+/-- the same for compilations that never dump the debug database: every entry point -/
+theorem history_independent_no_dump {ρ ω : Type} (F : Store → PKey → Val) (prog : ρ → Prog ω)
+    (hs : ∀ r, Suff F true (prog r)) (h : List (Entry × ρ)) (e : Entry) (rq : ρ) :
+    (compile prog e (after prog h init) rq).1 = (compile prog e init rq).1 :=
+  history_independent F prog (fun r => (hs r).weaken) h e rq (fun _ => hs rq)
 
-/-- the invariant behind both theorems: whatever ran before, every entry of a memo table under a key that a later
+/-- the invariant behind the theorem: whatever ran before, every entry of a persisting memo table under a key that a later
 compilation can rebuild holds the value `F` prescribes, and every other entry is tagged with a past compilation -/
 theorem history_keeps_tables_consistent {ρ ω : Type} (F : Store → PKey → Val) (strict : Bool) (prog : ρ → Prog ω)
     (hs : ∀ r, Suff F strict (prog r)) (h : List (Entry × ρ)) :
@@ -89,11 +82,10 @@ theorem history_keeps_tables_consistent {ρ ω : Type} (F : Store → PKey → V
 /-! ### non-vacuity: a compilation shaped like the real one meets the hypothesis -/
 
 theorem convProg_sufficient (rq : Nat × Nat) : Suff convF true (convProg rq) := by
-  refine .memo _ _ _ _ (fun _ => rfl) fun arch => ?_
-  refine .memo _ _ _ _ (fun h => by simp [isLocal, Atom.isLoc] at h) fun enc => ?_
-  refine .memo _ _ _ _ (fun h => by simp [isLocal, Atom.isLoc] at h) fun enc2 => ?_
-  refine .assign _ _ _ (fun _ => by simp [isLocal, Atom.isLoc]) ?_
-  exact .log _ _ (.ret _)
+  refine .memo _ _ _ _ (fun _ _ => rfl) fun arch => ?_
+  refine .memo _ _ _ _ (fun h => by cases h) fun enc => ?_
+  refine .memo _ _ _ _ (fun h => by cases h) fun enc2 => ?_
+  exact .assign _ _ _ (.log _ _ (.ret _))
 
 /-- … so its output after a mixed history is the fresh-process output (the second look-up hits the entry the first
 one made: a cache hit *inside* a compilation is part of the function) -/
@@ -102,19 +94,70 @@ example : (compile convProg .main (after convProg [(.main, (0, 5)), (.convert, (
 example : (compile convProg .main init (1, 5)).1 = some [501, 1005, 1005] := by decide
 example (h : List (Entry × (Nat × Nat))) (e : Entry) (rq : Nat × Nat) :
     (compile convProg e (after convProg h init) rq).1 = (compile convProg e init rq).1 :=
-  history_independent convF convProg convProg_sufficient h e rq
+  history_independent_no_dump convF convProg convProg_sufficient h e rq
 
-/-! ### where the unchanged code does not meet the hypothesis -/
+/-! ### the former witnesses, now instances of the theorem
 
-/-- the same model under another accelerator, second in the process, is given the first accelerator's weight stream —
-even through `convert_bytes`, which resets everything vela ever resets.
-Replayed: `./check C14`, known finding `stale-CompressedWeightCache-hit:value_id-from-create_equivalence_id`. -/
-theorem weight_cache_key_insufficient_witness :
-    (compile meanProg .convertBytes (after meanProg [(.convertBytes, 0)] init) 1).1 = some 1000 ∧
-    (compile meanProg .convertBytes init 1).1 = some 1001 := by decide
+Before 97e1538 / PENDING-1 / PENDING-2 each of these programs had a two-step history that changed its output
+(`weight_cache_key_insufficient_witness`: `convert_bytes(mean, U55); convert_bytes(mean, U65)` returned the U55 stream;
+`main_history_dependent_witness` / `convert_keeps_addresses_witness`: `main(A); main(B)` = `none`;
+`debug_db_leaks_through_main_witness`: second `_debug.xml` = `[1, 2]`; `failed_compilation_skips_cleanup_witness`).
+With the weight cache and the address map emptied before every compilation and the debug database cleaned by `main`,
+they are history independent for every history. -/
 
-/-- … and no value function of the key can repair it: the hypothesis of `history_independent` is not met -/
-theorem weight_cache_key_no_value_function_witness : ¬ ∃ F, ∀ r, Suff F false (meanProg r) := by
+/-- MEAN on the NPU (memoised `value_id`, stream depends on the accelerator): was finding
+`stale-CompressedWeightCache-hit:value_id-from-create_equivalence_id`, fixed by 97e1538 -/
+theorem mean_weights_history_independent (h : List (Entry × Nat)) (e : Entry) (acc : Nat) :
+    (compile meanProg e (after meanProg h init) acc).1 = (compile meanProg e init acc).1 :=
+  history_independent_no_dump (fun _ _ => 0) meanProg
+    (fun _ => .memo _ _ _ _ (fun hp => by cases hp) (fun _ => .ret _)) h e acc
+
+example : (compile meanProg .convertBytes (after meanProg [(.convertBytes, 0)] init) 1).1 = some 1001 := by decide
+
+/-- constants with memoised identities may be placed at different addresses by successive compilations: was finding
+`AssertionError@tensor.set_address_for_tens:stale-address-of-memoised-equivalence-id` (PENDING-1) -/
+theorem memoised_identity_addresses_history_independent (h : List (Entry × Nat)) (e : Entry) (rq : Nat) :
+    (compile lutProg e (after lutProg h init) rq).1 = (compile lutProg e init rq).1 :=
+  history_independent_no_dump (fun _ _ => 0) lutProg (fun _ => .assign _ _ _ (.ret _)) h e rq
+
+example : (compile lutProg .main (after lutProg [(.main, 1)] init) 2).1 = some 2 := by decide
+example : (compile lutProg .convert (after lutProg [(.convert, 1)] init) 2).1 = some 2 := by decide
+
+/-- … also after a compilation that died half way (the reset is at the start of the next one, not at the end of this one) -/
+theorem crashed_predecessor_history_independent (h : List (Entry × (Bool × Nat))) (e : Entry) (rq : Bool × Nat) :
+    (compile crashProg e (after crashProg h init) rq).1 = (compile crashProg e init rq).1 :=
+  history_independent_no_dump (fun _ _ => 0) crashProg
+    (fun r => by
+      obtain ⟨b, n⟩ := r
+      cases b
+      · exact .assign _ _ _ (.ret _)
+      · exact .assign _ _ _ (.assign _ _ _ (.ret _))) h e rq
+
+example : (compile crashProg .convertBytes (after crashProg [(.convertBytes, (true, 1))] init) (false, 5)).1 = some 5 := by decide
+
+/-- `--enable-debug-db` through `main`: was finding `DebugDatabase-not-cleared-by-main` (PENDING-2) -/
+theorem debug_db_through_main_history_independent (h : List (Entry × Nat)) (rq : Nat) :
+    (compile dbgProg .main (after dbgProg h init) rq).1 = (compile dbgProg .main init rq).1 :=
+  history_independent (fun _ _ => 0) dbgProg
+    (fun _ => .log _ _ (.dump _ rfl (fun _ => .ret _))) h .main rq (fun hne => absurd rfl hne)
+
+example : (compile dbgProg .main (after dbgProg [(.main, 1)] init) 2).1 = some [2] := by decide
+
+/-! ### the remaining hypotheses are needed -/
+
+/-- dumping the database through an entry point that does not clean it first would still see the rows a `main` left
+(model-level: `convert` and `convert_bytes` never call `DebugDatabase.write`; this is why the theorem admits the dump for
+`main` only) -/
+theorem dump_outside_main_witness :
+    (compile dbgProg .convert (after dbgProg [(.main, 1)] init) 2).1 = some [1, 2] ∧
+    (compile dbgProg .convert init 2).1 = some [2] := by decide
+
+/-- a persisting memo table whose stored value depends on more than its key — `default_arch_cache` filled with an
+architecture object configured from the command line (mutation M4 of design.d/C14.md) — is history dependent -/
+theorem persisting_store_needs_value_function_witness :
+    (compile archLeakProg .main (after archLeakProg [(.main, 1)] init) 2).1 = some 1 ∧
+    (compile archLeakProg .main init 2).1 = some 2 ∧ ¬ ∃ F, ∀ r, Suff F false (archLeakProg r) := by
+  refine ⟨by decide, by decide, ?_⟩
   rintro ⟨F, h⟩
   have h0 := h 0
   have h1 := h 1
@@ -122,39 +165,10 @@ theorem weight_cache_key_no_value_function_witness : ¬ ∃ F, ∀ r, Suff F fal
   | memo _ _ _ _ hv0 _ =>
     cases h1 with
     | memo _ _ _ _ hv1 _ =>
-      have e0 := hv0 (by decide)
-      have e1 := hv1 (by decide)
+      have e0 := hv0 rfl (by decide)
+      have e1 := hv1 rfl (by decide)
       rw [← e0] at e1
       cases e1
-
-/-- `main(A); main(B)`: the second compilation dies on "Two different addresses cannot be assigned to the same
-tensor" although it succeeds in a fresh process. Replayed: known finding
-`AssertionError@tensor.set_address_for_tens:stale-address-of-memoised-equivalence-id`. -/
-theorem main_history_dependent_witness :
-    (compile lutProg .main (after lutProg [(.main, 1)] init) 2).1 = none ∧
-    (compile lutProg .main init 2).1 = some 2 := by decide
-
-/-- `convert` cleans the debug database but keeps the address map: same failure -/
-theorem convert_keeps_addresses_witness :
-    (compile lutProg .convert (after lutProg [(.convert, 1)] init) 2).1 = none := by decide
-
-/-- `convert_bytes` clears the map: the same pair of requests goes through (an instance of
-`history_independent_after_convert_bytes`) -/
-example : (compile lutProg .convertBytes (after lutProg [(.convertBytes, 1)] init) 2).1 = some 2 := by decide
-
-/-- `main` never cleans the database: the second `_debug.xml` also holds the first compilation's rows.
-Replayed: known finding `DebugDatabase-not-cleared-by-main`. -/
-theorem debug_db_leaks_through_main_witness :
-    (compile dbgProg .main (after dbgProg [(.main, 1)] init) 2).1 = some [1, 2] ∧
-    (compile dbgProg .main init 2).1 = some [2] := by decide
-
-/-- the clean-up of `convert_bytes` sits after the compilation, not in a `finally`: an escaping exception skips it and
-the next `convert_bytes` inherits the address map. Model-level witness only: the harness runs crashing compilations
-first (`crash_first` scenarios) but the crashes of the unchanged tree happen before tensor allocation, so this one
-was not reproduced on the real compiler. -/
-theorem failed_compilation_skips_cleanup_witness :
-    (compile crashProg .convertBytes (after crashProg [(.convertBytes, (true, 1))] init) (false, 5)).1 = none ∧
-    (compile crashProg .convertBytes init (false, 5)).1 = some 5 := by decide
 
 /-! ## Sorting before emitting -/
 
@@ -191,13 +205,15 @@ numbering of the triples), so the emitted order never depends on the iteration o
 theorem operator_codes_order_invariant (l₁ l₂ : List Nat) (hp : l₁.Perm l₂) : emitOrder id l₁ = emitOrder id l₂ :=
   permutation_invariant id l₁ l₂ hp (fun _ _ _ _ h => h)
 
-/-- tensors: `sorted((tens.name, idx, tens) …)`: invariant when the names are unique -/
+/-- tensors: `sorted((tens.name, idx, tens) …)`: whatever the iteration order, invariant when the names are unique -/
 theorem tensor_order_invariant_of_unique_names {τ : Type} (name : τ → Nat) (l₁ l₂ : List τ) (hp : l₁.Perm l₂)
     (huniq : ∀ a ∈ l₁, ∀ b ∈ l₁, name a = name b → a = b) : emitOrder name l₁ = emitOrder name l₂ :=
   permutation_invariant name l₁ l₂ hp huniq
 
-/-- … and not otherwise: two tensors (name, depth) both called `7`. Replayed: known finding
-`writer-tensor-order:duplicate-tensor-names-tie-broken-by-set-iteration`. -/
+/-- … and not otherwise: two tensors (name, depth) both called `7` come out in the order in which the collection was
+iterated. This is why the collection must not be a `set` of `id()`-hashed objects (was finding
+`writer-tensor-order:duplicate-tensor-names-tie-broken-by-set-iteration`, PENDING-4: the writer now fills an insertion-ordered
+`dict` in graph order, see `writer_tensors_in_graph_order`, so the iterated order `l` is a function of the model). -/
 theorem tensor_order_duplicate_names_witness :
     emitOrder Prod.fst [((7 : Nat), (16 : Nat)), (7, 8), (3, 1)] ≠ emitOrder Prod.fst [(7, 8), (7, 16), (3, 1)] ∧
     [((7 : Nat), (16 : Nat)), (7, 8), (3, 1)].Perm [(7, 8), (7, 16), (3, 1)] := by
@@ -216,14 +232,24 @@ theorem stores_all_modelled : Gen.Caches.processStores.all (fun s => modelledSto
 /-- … and the model does not talk about stores that are gone -/
 theorem modelled_stores_exist : modelledStores.all (fun s => Gen.Caches.processStores.contains s) = true := by decide
 
-/-- the key of the compressed-weight cache has exactly the fields the model's key has: no accelerator, no IFM bit
-depth, no weight shape, no operator type -/
+/-- the key of the compressed-weight cache has exactly the fields the model's key has (no accelerator, no weight shape,
+no operator type: harmless across compilations now that the cache is emptied before each one) -/
 theorem weight_key_fields_as_modelled : Gen.Caches.wccFields = weightKeyFields := by decide
 
-/-- what `main` / `convert` / `convert_bytes` reset is what `cleanup` resets -/
+/-- what is reset before a compilation (`process` for `main`, the top of `compiler_driver` for every entry point) and what
+`convert` / `convert_bytes` reset afterwards is what `prepare` / `cleanup` reset -/
 theorem entry_cleanup_as_modelled :
+    Gen.Caches.prepareMain = prepareNames .main ∧ Gen.Caches.prepareConvert = prepareNames .convert ∧
+    Gen.Caches.prepareConvertBytes = prepareNames .convertBytes ∧ Gen.Caches.driverPrepare = driverPrepareNames ∧
     Gen.Caches.cleanupMain = cleanupNames .main ∧ Gen.Caches.cleanupConvert = cleanupNames .convert ∧
     Gen.Caches.cleanupConvertBytes = cleanupNames .convertBytes := by decide
+
+/-- the writer collects the tensors of a subgraph in an insertion-ordered `dict` (graph order), not in a `set` -/
+theorem writer_tensors_in_graph_order : Gen.Caches.writerTensorCollection = ["dict.fromkeys(sg.original_inputs)"] := by decide
+
+/-- the greedy allocator builds no `set`: it sorts the list of live ranges with their creation index as tie-break
+(was finding `greedy-allocation-order:equal-live-ranges-tie-broken-by-set-iteration`, PENDING-3) -/
+theorem greedy_sorts_a_sequence : Gen.Caches.greedySetUses = [] := by decide
 
 /-- the options `convert` and `convert_bytes` hard-code are `main`'s defaults: the three entry points are comparable -/
 theorem entry_points_comparable :
